@@ -10,7 +10,7 @@ from pyerr import exc_code
 import vnet, valgen
 
 PROP = 'C15'
-COQ_TARGETS = ['theories/ObjFacts.vo']
+COQ_TARGETS = ['theories/ObjFacts.vo', 'theories/ObjRw.vo', 'theories/ObjRpm.vo']
 COQ_IMPORTS = 'From Bac Require Import Base Obj.\nFrom BacGen Require Import ObjTables.'
 RULE = ('histories: a device with 2-3 objects drawn from the 63 registered object types (the registered class itself, or a '
         'subclass re-declaring every property mutable), about half of the properties initialised with values generated from '
